@@ -71,6 +71,9 @@ def corruptions(rng, rows, nb, inst):
     q = cp(); q[r][1] = 0; yield "bin=0", q, nb
     yield "count+1", cp(), nb + 1
     yield "count-1", cp(), nb - 1
+    yield "count=-1 (the value of an unset count)", cp(), -1
+    yield "count=-7", cp(), -7
+    yield "count=0", cp(), 0
     q = cp()
     for x in q:
         x[1] += 1
